@@ -3,12 +3,13 @@ import os
 from lib.core import Verus, VERUS_DIR
 from lib import vx
 from verus import c17_get_commands as gc
+from props.C18 import GSC_UNIT
 
 PROPERTY = 'C17'
 LEVEL = 'proof'
 Q = 'crates/aranya-runtime/src/sync/requester.rs'
 R = 'crates/aranya-runtime/src/sync/responder.rs'
-HARNESS_FILES = ['verus/c17_get_commands.py', 'kani/aranya-runtime/requester.rs', 'kani/aranya-runtime/responder.rs', 'kani/aranya-runtime/mocks.rs', 'kani/aranya-runtime/storage_mod.rs']
+HARNESS_FILES = ['verus/c17_get_commands.py', 'verus/c18_get_sync_commands.py', 'kani/aranya-runtime/requester.rs', 'kani/aranya-runtime/responder.rs', 'kani/aranya-runtime/mocks.rs', 'kani/aranya-runtime/storage_mod.rs']
 def _build(crm):
     def b():
         text, located, dropped, raws = gc.build(crm)
@@ -24,6 +25,7 @@ GC_CONTRACT = ('SyncResponder::get_commands and get_next (extracted): with remai
                'get_next writes a response (or SyncEnd when drained) at the current message index, advances the session by exactly the commands in the message, increments the index by one, '
                'and on ANY error leaves to_send / next_send / message_index unchanged (retry-safe). Unbounded: any number of segments, commands and responses.')
 UNITS = [
+    GSC_UNIT,
     Verus('c17_get_commands', _build('100'), min_verified=25, contract=GC_CONTRACT),
     Verus('c17_get_commands_5', _build('5'), min_verified=25, tiers=('thorough',), contract=GC_CONTRACT + ' (low-mem-usage constants: COMMAND_RESPONSE_MAX = 5)'),
     Kani('sync::requester::verif_kani::c18_get_sync_commands_n1', fns=[Fn(Q, 'get_sync_commands', r'impl SyncRequester')], kind='bounded', bound='1 command meta', covers=1, cap_s=900,
